@@ -281,12 +281,11 @@ def run(model: RepoModel, rep, tier: str):
     for a in adds:
         st = cfg.stmt[a]
         key = f"{PS}::analyze_stmts::{norm(st)}"
-        guards = [(t, lab) for t, lab in cfg.controlling_branches(a) if isinstance(t, ast.If) and "stmt_counters" in norm(t.test)]
         ok_guard = False
-        for t, lab in guards:
-            tst = t.test
-            if isinstance(tst, ast.Compare) and len(tst.ops) == 1 and isinstance(tst.ops[0], (ast.Lt, ast.LtE)) and "stmt_counters" in norm(tst.left) and lab == "T":
-                ok_guard = True
+        for tst, truth in cfg.conditions_at(a):          # polarity-agnostic: `if c < b: add else: pop` == `if not c < b: pop; continue` + add
+            if isinstance(tst, ast.Compare) and len(tst.ops) == 1 and "stmt_counters" in norm(tst.left):
+                if (isinstance(tst.ops[0], (ast.Lt, ast.LtE)) and truth) or (isinstance(tst.ops[0], (ast.Gt, ast.GtE)) and not truth):
+                    ok_guard = True
         probs = []
         if not ok_guard:
             probs.append("successors are queued without the `stmt_counters[stmt_id] < bound` test")
